@@ -3,6 +3,8 @@ C14 — A damaged record is never returned as data.
 -/
 import Klev.Proofs.CrcAlgebra
 import Klev.Proofs.ScanProofs
+import Klev.Proofs.Damage
+import Klev.Proofs.TornAppend
 namespace Klev.C14
 
 /-- Any change confined to at most 4 consecutive bytes of the bytes a CRC covers changes the
@@ -31,9 +33,51 @@ theorem cut_in_header_is_error (v : Ver) (b : List UInt8) (pos : Nat) (h1 : pos 
     (h2 : b.length < pos + 28) : dec v b pos = .bad .shortHeader :=
   Klev.dec_shortHeader v b pos h1 h2
 
+/-- **An overwritten V2 record is never returned as data** (≤ 4 consecutive bytes anywhere in
+offset / time / key / value / trailer): the reader answers with a CRC error, whatever
+surrounds the record in the file. (The CRC comparison comes before the trailer comparison.) -/
+theorem v2_body_damage (pre post : List UInt8) (m : Msg) (h : m.Encodable)
+    (a d1 d2 z : List UInt8) (hsplit : v2Body m = a ++ d1 ++ z)
+    (hl : d1.length = d2.length) (h4 : d1.length ≤ 4) (hne : d1 ≠ d2)
+    (hlenFields : a.length + d1.length ≤ 16 ∨ 24 ≤ a.length) :
+    dec .v2 (pre ++ crcBytes (v2Body m) ++ (a ++ d2 ++ z) ++ post) pre.length = .bad .crc :=
+  Klev.v2_body_damage pre post m h a d1 d2 z hsplit hl h4 hne hlenFields
+
+/-- Any change of the stored checksum itself is detected. -/
+theorem v2_crc_field_damage (pre post : List UInt8) (m : Msg) (h : m.Encodable) (c' : List UInt8)
+    (hc : c'.length = 4) (hne : c' ≠ crcBytes (v2Body m)) :
+    dec .v2 (pre ++ c' ++ v2Body m ++ post) pre.length = .bad .crc :=
+  Klev.v2_crc_field_damage pre post m h c' hc hne
+
+/-- Every single changed byte (hence every single-bit flip) outside the two length fields. -/
+theorem v2_body_byte_damage (pre post : List UInt8) (m : Msg) (h : m.Encodable)
+    (a z : List UInt8) (x y : UInt8) (hsplit : v2Body m = a ++ x :: z) (hxy : x ≠ y)
+    (hlenFields : a.length + 1 ≤ 16 ∨ 24 ≤ a.length) :
+    dec .v2 (pre ++ crcBytes (v2Body m) ++ (a ++ y :: z) ++ post) pre.length = .bad .crc :=
+  Klev.v2_body_byte_damage pre post m h a z x y hsplit hxy hlenFields
+
+/-- Records whose bytes were not touched read back identically whatever was done to the bytes
+before (same length) and after them. -/
+theorem untouched_record_reads_back (v : Ver) (pre pre' post post' : List UInt8) (m : Msg)
+    (h : m.Encodable) (hp : pre'.length = pre.length) :
+    dec v (pre' ++ enc v m ++ post') pre.length = .ok m (pre.length + (enc v m).length) :=
+  Klev.untouched_record_reads_back v pre pre' post post' m h hp
+
+/-- A file cut anywhere inside a record (both formats): end of data / short header / short
+data, never a record. -/
+theorem cut_record_never_parses (v : Ver) (pre : List UInt8) (m : Msg) (h : m.Encodable) (j : Nat)
+    (hj : j < (enc v m).length) :
+    ∀ m' n, dec v (pre ++ (enc v m).take j) pre.length ≠ .ok m' n :=
+  Klev.torn_record_not_parsed v pre m h j hj
+
 end Klev.C14
 
 #print axioms Klev.C14.small_damage_changes_crc
 #print axioms Klev.C14.single_byte_changes_crc
 #print axioms Klev.C14.crc_vectors
 #print axioms Klev.C14.cut_in_header_is_error
+#print axioms Klev.C14.v2_body_damage
+#print axioms Klev.C14.v2_crc_field_damage
+#print axioms Klev.C14.v2_body_byte_damage
+#print axioms Klev.C14.untouched_record_reads_back
+#print axioms Klev.C14.cut_record_never_parses
